@@ -23,7 +23,8 @@ const addr = "127.0.0.1:6379"
 type config struct {
 	name      string
 	tracking  []string // ClientTrackingOptions
-	static    bool     // ToStaticTTL
+	static    bool     // ToStaticTTL on every command
+	mixed     bool     // ToStaticTTL on a random half of the commands: DoMultiCache batches mix tagged and untagged members
 	adapter   bool     // NewSimpleCacheAdapter store
 	multiplex int
 	readers   int
@@ -35,10 +36,20 @@ type config struct {
 type hit struct {
 	call  string
 	key   string
+	cmd   string // identity of the cached command (what the store keys the entry by, next to the key)
 	value string
 	inv   map[int64]int  // invalidations processed per connection when the call started
 	dead  map[int64]bool // connections known lost when the call started
 	cfg   string
+}
+
+// rcmd is one generated cached read.
+type rcmd struct {
+	c       rueidis.Cacheable
+	id      string // what the client keys the cache entry by, next to the key; GET and the members of MGET share "GET"
+	skip    int    // leading bytes of the stored value the command does not return
+	tagged  bool   // ToStaticTTL
+	inMixed bool   // member of a DoMultiCache batch holding tagged and untagged commands
 }
 
 type mapCache struct {
@@ -160,47 +171,74 @@ func runConfig(run *mon.Run, cfg config) {
 	var hitsMu sync.Mutex
 	var hits []hit
 	var calls, hitCount, missCount, errCount atomic.Int64
-	record := func(call, k string, msg rueidis.RedisMessage, inv map[int64]int, dead map[int64]bool) {
+	// values that a ToStaticTTL-tagged member of a mixed batch fetched over the wire itself (it was neither a hit nor
+	// a waiter of somebody else's fetch): the entries later hits are served from were committed by that batch
+	mixedFills := map[string]bool{} // guarded by hitsMu
+	var mixedBatches, mixedTaggedFetched atomic.Int64
+	record := func(call, k string, cm rcmd, msg rueidis.RedisMessage, inv map[int64]int, dead map[int64]bool) {
+		if msg.IsNil() || msg.Error() != nil {
+			return
+		}
 		s, err := msg.ToString()
 		if err != nil {
+			// every command of this driver is answered with a string or a null by the server
+			if msg.IsCacheHit() {
+				hitCount.Add(1)
+				run.Violation("hit-not-a-server-reply", call+"|"+cfg.name, map[string]any{"config": cfg.name, "call": call, "key": k, "command": cm.id, "tagged_static": cm.tagged, "got": msg.String()})
+			}
 			return
 		}
 		if s == "" {
 			return // GETRANGE of a key that does not exist (just flushed or expired) answers an empty string
 		}
-		if !strings.HasPrefix(s, k+":") {
-			run.Violation("foreign-value", call, map[string]any{"config": cfg.name, "key": k, "got": s})
+		if !strings.HasPrefix(s, k[cm.skip:]+":") {
+			class, key := "foreign-value", call
+			if msg.IsCacheHit() {
+				// a hit that is not even a value of the key: say which store / tagging produced it
+				class, key = "hit-not-a-server-reply", call+"|"+cfg.name
+			}
+			run.Violation(class, key, map[string]any{"config": cfg.name, "key": k, "command": cm.id, "tagged_static": cm.tagged, "in_mixed_batch": cm.inMixed, "cache_hit": msg.IsCacheHit(), "got": s})
 			return
 		}
 		if msg.IsCacheHit() {
 			hitCount.Add(1)
 			hitsMu.Lock()
-			hits = append(hits, hit{call: call, key: k, value: s, inv: inv, dead: dead, cfg: cfg.name})
+			hits = append(hits, hit{call: call, key: k, cmd: cm.id, value: s, inv: inv, dead: dead, cfg: cfg.name})
 			hitsMu.Unlock()
 		} else {
 			missCount.Add(1)
+			if cm.inMixed && cm.tagged {
+				mixedTaggedFetched.Add(1)
+				hitsMu.Lock()
+				mixedFills[cm.id+"\x00"+s] = true
+				hitsMu.Unlock()
+			}
 		}
 	}
 	// some fetches are slow to start, so that invalidations arrive while cache entries are still pending
 	srv.Plan(&fakeredis.Rule{Name: "slow-fetch", Match: func(_ *fakeredis.Conn, a []string) bool {
 		return len(a) > 0 && a[0] == "CLIENT" && len(a) > 1 && a[1] == "CACHING" && version.Load()%7 == 0
 	}, Action: fakeredis.Action{DelayBefore: 300 * time.Microsecond}})
-	// three different cacheable commands read every key (the store keeps one entry per command under the key)
-	get := func(k string) rueidis.Cacheable {
-		var c rueidis.Cacheable
-		switch variant.Add(1) % 3 {
+	// four different cacheable commands read every key (the store keeps one entry per command under the key); the last
+	// one answers differently from the others, so a hit served from another command's entry does not pass for its own
+	get := func(k string, rng interface{ Intn(int) int }) rcmd {
+		var cm rcmd
+		switch variant.Add(1) % 4 {
 		case 0:
-			c = client.B().Get().Key(k).Cache()
+			cm = rcmd{c: client.B().Get().Key(k).Cache(), id: "GET"}
 		case 1:
-			c = client.B().Getrange().Key(k).Start(0).End(-1).Cache()
+			cm = rcmd{c: client.B().Getrange().Key(k).Start(0).End(-1).Cache(), id: "GETRANGE|0|-1"}
+		case 2:
+			cm = rcmd{c: client.B().Getrange().Key(k).Start(0).End(4000).Cache(), id: "GETRANGE|0|4000"}
 		default:
-			c = client.B().Getrange().Key(k).Start(0).End(4000).Cache()
+			cm = rcmd{c: client.B().Getrange().Key(k).Start(1).End(-1).Cache(), id: "GETRANGE|1|-1", skip: 1}
 		}
-		if cfg.static {
-			return c.ToStaticTTL()
+		if cfg.static || (cfg.mixed && rng.Intn(2) == 0) {
+			cm.c, cm.tagged = cm.c.ToStaticTTL(), true
 		}
-		return c
+		return cm
 	}
+	mget := rcmd{id: "GET"}
 	var wg sync.WaitGroup
 	for r := 0; r < cfg.readers; r++ {
 		wg.Add(1)
@@ -214,9 +252,10 @@ func runConfig(run *mon.Run, cfg config) {
 				switch k := rng.Intn(10); {
 				case k < 5:
 					kk := key(rng.Intn(nkeys))
-					res := client.DoCache(ctx, get(kk), time.Minute)
+					cm := get(kk, rng)
+					res := client.DoCache(ctx, cm.c, time.Minute)
 					if msg, err := res.ToMessage(); err == nil {
-						record("DoCache", kk, msg, inv, dead)
+						record("DoCache", kk, cm, msg, inv, dead)
 					} else if !rueidis.IsRedisNil(err) {
 						errCount.Add(1)
 					}
@@ -224,13 +263,25 @@ func runConfig(run *mon.Run, cfg config) {
 					n := 1 + rng.Intn(4)
 					cts := make([]rueidis.CacheableTTL, n)
 					ks := make([]string, n)
+					cms := make([]rcmd, n)
+					tagged := 0
 					for i := range cts {
 						ks[i] = key(rng.Intn(nkeys))
-						cts[i] = rueidis.CT(get(ks[i]), time.Minute)
+						cms[i] = get(ks[i], rng)
+						cts[i] = rueidis.CT(cms[i].c, time.Minute)
+						if cms[i].tagged {
+							tagged++
+						}
+					}
+					if tagged > 0 && tagged < n {
+						mixedBatches.Add(1)
+						for i := range cms {
+							cms[i].inMixed = true
+						}
 					}
 					for i, res := range client.DoMultiCache(ctx, cts...) {
 						if msg, err := res.ToMessage(); err == nil {
-							record("DoMultiCache", ks[i], msg, inv, dead)
+							record("DoMultiCache", ks[i], cms[i], msg, inv, dead)
 						} else if !rueidis.IsRedisNil(err) {
 							errCount.Add(1)
 						}
@@ -246,7 +297,7 @@ func runConfig(run *mon.Run, cfg config) {
 						errCount.Add(1)
 					}
 					for kk, msg := range ret {
-						record("MGetCache", kk, msg, inv, dead)
+						record("MGetCache", kk, mget, msg, inv, dead)
 					}
 				default:
 					ks := []string{key(rng.Intn(nkeys)), key(rng.Intn(nkeys))}
@@ -256,7 +307,7 @@ func runConfig(run *mon.Run, cfg config) {
 					}
 					for i, msg := range arr {
 						if i < len(ks) {
-							record("DoCache-MGET", ks[i], msg, inv, dead)
+							record("DoCache-MGET", ks[i], mget, msg, inv, dead)
 						}
 					}
 				}
@@ -279,7 +330,7 @@ func runConfig(run *mon.Run, cfg config) {
 		null bool
 		keys map[string]bool
 	}
-	cands := map[string][]cand{} // value -> replies carrying it (connection, wire position)
+	cands := map[string][]cand{} // command identity + value -> replies of that command carrying it (connection, wire position)
 	pushes := map[int64][]push{}
 	for _, ev := range srv.Log() {
 		switch ev.Kind {
@@ -290,12 +341,16 @@ func runConfig(run *mon.Run, cfg config) {
 			switch strings.ToUpper(ev.Argv[0]) {
 			case "GET", "GETRANGE":
 				if ev.Reply.T == '$' && !ev.Reply.Null2 {
-					cands[ev.Reply.S] = append(cands[ev.Reply.S], cand{ev.Conn, ev.Seq})
+					id := "GET"
+					if len(ev.Argv) == 4 {
+						id = "GETRANGE|" + ev.Argv[2] + "|" + ev.Argv[3]
+					}
+					cands[id+"\x00"+ev.Reply.S] = append(cands[id+"\x00"+ev.Reply.S], cand{ev.Conn, ev.Seq})
 				}
 			case "MGET":
 				for _, e := range ev.Reply.A {
 					if e.T == '$' && !e.Null2 {
-						cands[e.S] = append(cands[e.S], cand{ev.Conn, ev.Seq})
+						cands["GET\x00"+e.S] = append(cands["GET\x00"+e.S], cand{ev.Conn, ev.Seq})
 					}
 				}
 			}
@@ -317,11 +372,15 @@ func runConfig(run *mon.Run, cfg config) {
 		totalPush += len(ps)
 	}
 	stale := 0
+	var mixedFillHits int64
 	for _, h := range hits {
-		cs := cands[h.value]
+		cs := cands[h.cmd+"\x00"+h.value]
 		if len(cs) == 0 {
-			run.Violation("hit-not-a-server-reply", h.call+"|"+cfg.name, map[string]any{"config": cfg.name, "call": h.call, "key": h.key, "value": h.value})
+			run.Violation("hit-not-a-server-reply", h.call+"|"+cfg.name, map[string]any{"config": cfg.name, "call": h.call, "key": h.key, "command": h.cmd, "value": h.value})
 			continue
+		}
+		if mixedFills[h.cmd+"\x00"+h.value] {
+			mixedFillHits++
 		}
 		ok := false
 		var why []string
@@ -356,6 +415,13 @@ func runConfig(run *mon.Run, cfg config) {
 	run.Observe("hits_checked", hitCount.Load())
 	run.Observe("misses", missCount.Load())
 	run.Observe("call_errors", errCount.Load())
+	store := "lru"
+	if cfg.adapter {
+		store = "adapter"
+	}
+	run.Observe("multicache_batches_mixing_static_and_plain_"+store, mixedBatches.Load())
+	run.Observe("mixed_batch_static_members_fetched_on_wire_"+store, mixedTaggedFetched.Load())
+	run.Observe("hits_on_values_fetched_by_static_member_of_mixed_batch_"+store, mixedFillHits)
 	run.Observe("invalidation_pushes_on_wire", int64(totalPush))
 	m.mu.Lock()
 	processed, lost := 0, 0
@@ -375,8 +441,8 @@ func runConfig(run *mon.Run, cfg config) {
 // C06: cached replies are never served after their invalidation.
 func TestC06(t *testing.T) {
 	run := mon.Start(t, "C06", "exploration",
-		"4-16 readers (DoCache GET, DoMultiCache, MGetCache, DoCache MGET) on 5 keys against writers storing a unique version per write, FLUSHALL, server-side expiry, tracking-table evictions and connection kills; tracking modes OPTIN / OPTOUT / BCAST, static TTL, built-in store and NewSimpleCacheAdapter, 1-4 multiplexed wires; "+
-			"client hooks count processed invalidations and disconnects per connection, each call snapshots them at its start, every hit is checked offline against the server's wire order: its value must be a reply to that read on a live connection placed after the last covering invalidation the client had processed when the call started; "+
+		"4-16 readers (DoCache GET, DoMultiCache, MGetCache, DoCache MGET) on 5 keys against writers storing a unique version per write, FLUSHALL, server-side expiry, tracking-table evictions and connection kills; tracking modes OPTIN / OPTOUT / BCAST, static TTL on all commands or on a random half (so DoMultiCache batches mix ToStaticTTL-tagged and plain members), built-in store and NewSimpleCacheAdapter, 1-4 multiplexed wires; four cacheable commands per key, one of which answers differently from the others; "+
+			"client hooks count processed invalidations and disconnects per connection, each call snapshots them at its start, every hit is checked offline against the server's wire order: its value must be a reply the server sent to exactly that command (GET and MGET members share entries) on a live connection placed after the last covering invalidation the client had processed when the call started; "+
 			"a case is one configuration with hits and processed invalidations")
 	defer run.Finish()
 	run.Assume("fakeredis queues a reply at execution time and invalidation pushes at the writer's execution time, as Redis does, so log order is wire order per connection", "values are unique per write", "Go race detector on")
@@ -394,11 +460,15 @@ func TestC06(t *testing.T) {
 		{name: "optin-adapter", adapter: true, multiplex: -1, readers: readers, ops: ops, kills: true},
 		{name: "bcast-adapter-static", tracking: []string{"BCAST"}, adapter: true, static: true, multiplex: 1, readers: readers, ops: ops},
 		{name: "optin-lru-2readers", multiplex: -1, readers: 2, ops: ops * 3},
+		{name: "optin-adapter-mixed", adapter: true, mixed: true, multiplex: -1, readers: readers, ops: ops, kills: true},
+		{name: "bcast-lru-mixed", tracking: []string{"BCAST"}, mixed: true, multiplex: 1, readers: readers, ops: ops},
 	}
 	for i, cfg := range cfgs {
 		cfg.seed = run.Seed*100 + int64(i)
 		runConfig(run, cfg)
 	}
-	run.Require("hits_checked", "invalidations_processed_by_client", "invalidation_pushes_on_wire", "connections_lost")
+	run.Require("hits_checked", "invalidations_processed_by_client", "invalidation_pushes_on_wire", "connections_lost",
+		"mixed_batch_static_members_fetched_on_wire_adapter", "hits_on_values_fetched_by_static_member_of_mixed_batch_adapter",
+		"mixed_batch_static_members_fetched_on_wire_lru", "hits_on_values_fetched_by_static_member_of_mixed_batch_lru")
 	_ = drv.Tail
 }
